@@ -208,7 +208,7 @@ class Goal:
         self.sat_calls += 1
         f = self.fault
         if f is not None and f["where"] == "goal":
-            hit = (f.get("at") == i) if "at" in f else in_region(self.space, self.cfg, f["region"], s)
+            hit = (f["at"] == "always" or f["at"] == i) if "at" in f else in_region(self.space, self.cfg, f["region"], s)
             if hit:
                 self.failed_states.append(flat_of(self.cfg, s))
                 return do_fault(f["kind"])
@@ -227,9 +227,43 @@ class FaultError(Exception):
     pass
 
 
+def whole_goal(space, cfg, targets, radius, kind):
+    """A goal whose is_satisfied attribute itself is faulty (every call fails)."""
+    if kind == "wrong-arity":
+        class G(Goal):
+            def is_satisfied(self):  # noqa: D401 - deliberately takes no state
+                return True
+    elif kind == "non-callable":
+        class G(Goal):
+            is_satisfied = None
+    else:
+        class G(Goal):
+            is_satisfied = staticmethod(math.isfinite)
+    return G(space, cfg, targets, radius)
+
+
+class FaultBase(BaseException):
+    """A user exception outside the Exception hierarchy."""
+
+
 RAISE_KINDS = {"raise": None, "raise-attr": AttributeError, "raise-value": ValueError, "raise-type": TypeError,
                "raise-key": KeyError, "raise-zero": ZeroDivisionError, "raise-stop": StopIteration,
-               "raise-runtime": RuntimeError}
+               "raise-runtime": RuntimeError,
+               # outside the Exception hierarchy (SystemExit excluded: printing it ends the interpreter)
+               "raise-keyboardinterrupt": KeyboardInterrupt, "raise-generatorexit": GeneratorExit,
+               "raise-baseexception": FaultBase}
+
+# faults of the callback object itself: every call fails, and the error is raised by the call
+# machinery, without a Python frame of the callee
+WHOLE_KINDS = ("wrong-arity", "non-callable", "c-callable")
+
+
+def whole_checker(kind):
+    if kind == "wrong-arity":
+        return lambda: True
+    if kind == "non-callable":
+        return None
+    return math.isfinite  # a C callable: TypeError("must be real number, not ...")
 
 
 def do_fault(kind):
@@ -285,7 +319,7 @@ class Checker:
         self.calls += 1
         f = self.fault
         if f is not None and f["where"] == "validity":
-            hit = (f.get("at") == i) if "at" in f else in_region(self.space, self.cfg, f["region"], s)
+            hit = (f["at"] == "always" or f["at"] == i) if "at" in f else in_region(self.space, self.cfg, f["region"], s)
             if hit:
                 self.failed_states.append(flat_of(self.cfg, s))
                 return do_fault(f["kind"])
@@ -298,7 +332,11 @@ def run_python(sc, fault=None, mirror_false=False):
     space = build_space(cfg)
     if fault is not None and mirror_false:
         fault = dict(fault, kind="false")
-    goal = Goal(space, cfg, sc["targets"], sc["goal_radius"], fault)
+    whole = fault is not None and fault.get("at") == "always"
+    if whole and fault["where"] == "goal" and not mirror_false:
+        goal = whole_goal(space, cfg, sc["targets"], sc["goal_radius"], fault["whole"])
+    else:
+        goal = Goal(space, cfg, sc["targets"], sc["goal_radius"], None if whole and fault["where"] != "goal" else fault)
     start = mk_state(cfg, sc["start"])
     pd = getattr(B.ProblemDefinition, PD_CTOR[cfg["kind"]])(space, start, goal)
     if sc.get("frac_after") is not None and hasattr(space, "set_longest_valid_segment_fraction"):
@@ -314,12 +352,15 @@ def run_python(sc, fault=None, mirror_false=False):
         planner = G.RRTStar(sc["step"], sc["goal_bias"], sc["radius"], pd, conf)
     else:
         planner = G.PRM(sc["prm_build_s"], sc["radius"], pd, conf)
-    chk = Checker(space, cfg, sc["world"], fault)
+    chk = Checker(space, cfg, sc["world"], None if whole and fault["where"] != "validity" else fault)
+    chk_obj = chk
+    if whole and fault["where"] == "validity" and not mirror_false:
+        chk_obj = whole_checker(fault["whole"])
     err = io.StringIO()
     stage = "setup"
     with contextlib.redirect_stderr(err):
         try:
-            planner.setup(chk)
+            planner.setup(chk_obj)
             if pl == "PRM":
                 stage = "construct_roadmap"
                 planner.construct_roadmap()
@@ -338,9 +379,12 @@ def run_python(sc, fault=None, mirror_false=False):
             else:
                 tag, states = "Exception:" + msg, None
         except BaseException as e:  # noqa: BLE001 - pyo3's PanicException derives from BaseException
-            if type(e).__name__ != "PanicException":
+            if type(e).__name__ == "PanicException":
+                tag, states = "Panic", None
+            elif fault is not None and isinstance(e, (KeyboardInterrupt, GeneratorExit, FaultBase)):
+                tag, states = f"Escaped:{stage}:{type(e).__name__}", None
+            else:
                 raise
-            tag, states = "Panic", None
     return tag, states, chk, goal, space
 
 
@@ -701,8 +745,34 @@ def hyp_settings(n):
 # ------------------------------------------------------------------------------------------
 # C19
 # ------------------------------------------------------------------------------------------
+def c19_distances(sc, stats):
+    """space.distance through the wrapper versus the core, bit for bit: start-target, target-start,
+    a state with itself (same object) and with an equal copy."""
+    part = "distance-differential"
+    cfg = sc["space"]
+    space = build_space(cfg)
+    a, b = mk_state(cfg, sc["start"]), mk_state(cfg, sc["targets"][0])
+    a2 = mk_state(cfg, sc["start"])
+    fa, fb = flat_of(cfg, a), flat_of(cfg, b)
+    for name, x, y, fx, fy in (("start-target", a, b, fa, fb), ("target-start", b, a, fb, fa),
+                               ("same-object", a, a, fa, fa), ("equal-copy", a, a2, fa, fa),
+                               ("target-same-object", b, b, fb, fb)):
+        rep = ref().ask({"op": "interp", "space": cfg, "a": fx, "b": fy})
+        if "error" in rep or "d" not in rep:
+            stats.discard("reference could not build (distance)")
+            return
+        got = space.distance(x, y)
+        stats.label("distance:" + name)
+        if hx(got) != hx(rep["d"]):
+            stats.case(sc, True, part)
+            stats.fail(f"C19:distance-differs:{cfg['kind']}:{name}",
+                       f"{name}: Python space.distance = {got!r}, core = {rep['d']!r} for {fx!r}, {fy!r}", sc, part)
+    stats.case(sc, True, part)
+
+
 def c19_check_scenario(sc, stats):
     part = "planner-differential"
+    c19_distances(sc, stats)
     tag, states, chk, goal, _ = run_python(sc)
     rep = ref().ask({"op": "plan", "case": plan_case(sc)})
     if "error" in rep:
@@ -912,7 +982,9 @@ C19_RULE = ("Hypothesis-generated scenarios (six problem-definition variants; ge
             "the ProblemDefinition was created) run through oxmpl_py and, as the same PlanCase, through the Rust core (oxv refserver); "
             "outcome class and every float of the path compared as 64-bit patterns. PRM: soundness of the Python path against the Python "
             "callbacks (start, goal, validity, dense re-check through the core's interpolation, radius). Wrappers: ValueError <=> core Err over "
-            "the C12 bound lattice, distance / maximum-extent / canonicalised getters bit for bit. 8 worker processes with derived seeds. "
+            "the C12 bound lattice, distance / maximum-extent / canonicalised getters bit for bit; for every scenario space.distance of "
+            "start-target, target-start, a state with itself (same object) and with an equal copy against the core, bit for bit. "
+            "8 worker processes with derived seeds. "
             "Non-trivial = both sides return a path of >= 3 states in a world with an obstacle (differential); a path of >= 3 states with "
             "obstacles (PRM); a rejected or non-finite argument (wrappers).")
 C19_ASSUME = ["callbacks use only comparisons on state getters and the wrapped space.distance, so they are bit-identical functions in both languages",
@@ -959,7 +1031,11 @@ def fault_plan(draw, sc):
     where = draw(st.sampled_from(["validity", "validity", "goal"]))
     kinds = ["raise", "none", "str", "int", "list", "raise-attr", "raise-value", "raise-type", "raise-key",
              "raise-zero", "raise-stop", "raise-runtime", "float", "nonempty-list", "truthy-str"]
+    kinds += ["raise-keyboardinterrupt", "raise-generatorexit", "raise-baseexception"]
     kind = draw(st.sampled_from(kinds))
+    if draw(st.integers(0, 9)) == 0:
+        # the callback object itself is faulty: every call fails
+        return {"where": where, "kind": "false", "at": "always", "whole": draw(st.sampled_from(WHOLE_KINDS))}
     if draw(st.booleans()):
         return {"where": where, "kind": kind, "at": draw(st.integers(0, 39))}
     # region: a ball (space metric) around a random state, or around a state the planner is
@@ -991,8 +1067,11 @@ def c20_check(sc, stats):
     cfg = sc["space"]
     tagA, pA, chkA, goalA, spaceA = run_python(sc, fault=fault)
     reached = len(chkA.failed_states) + len(goalA.failed_states)
+    if fault.get("at") == "always":
+        reached = 1  # the faulty callback object is called at least for the start / first goal test
+    fkind = fault.get("whole", fault["kind"])
     stats.label("planner:" + sc["planner"])
-    stats.label("fault:" + fault["where"] + ":" + fault["kind"] + (":kth-call" if "at" in fault else ":region"))
+    stats.label("fault:" + fault["where"] + ":" + fault.get("whole", fault["kind"]) + (":every-call" if fault.get("at") == "always" else ":kth-call" if "at" in fault else ":region"))
     if "region" in fault:
         stats.label("fault-region-centre:" + fault.get("centre", "any"))
     if reached:
@@ -1014,14 +1093,14 @@ def c20_check(sc, stats):
                 bad = True
             if bad:
                 stats.case(sc, True, part)
-                stats.fail(f"C20:path-through-failed-state:{sc['planner']}:{fault['kind']}",
-                           f"path[{i}] = {s!r} is a state on which the validity callback failed ({fault['kind']})", sc, part)
+                stats.fail(f"C20:path-through-failed-state:{sc['planner']}:{fkind}",
+                           f"path[{i}] = {s!r} is a state on which the validity callback failed ({fkind})", sc, part)
     if tagA == "Ok" and fault["where"] == "goal" and "region" in fault:
         last = pA[-1]
         if any([hx(x) for x in last] == [hx(x) for x in f] for f in goalA.failed_states) and sc["planner"] != "RRTConnect":
             stats.case(sc, True, part)
-            stats.fail(f"C20:goal-accepted-on-failed-callback:{sc['planner']}:{fault['kind']}",
-                       f"the path ends at {last!r}, a state on which is_satisfied failed ({fault['kind']})", sc, part)
+            stats.fail(f"C20:goal-accepted-on-failed-callback:{sc['planner']}:{fkind}",
+                       f"the path ends at {last!r}, a state on which is_satisfied failed ({fkind})", sc, part)
     if sc["planner"] == "PRM":
         # wall-clock sized roadmap: runs are not comparable; soundness only
         stats.case(sc, bool(reached), part)
@@ -1036,19 +1115,19 @@ def c20_check(sc, stats):
         stats.label("fault-mattered")
     stats.case(sc, bool(reached and mattered), part)
     if tagA != tagB:
-        stats.fail(f"C20:outcome-differs-from-false:{sc['planner']}:{fault['where']}:{fault['kind']}",
+        stats.fail(f"C20:outcome-differs-from-false:{sc['planner']}:{fault['where']}:{fkind}",
                    f"with the failing callback: {tagA}; with the callback returning False at the same points: {tagB}", sc, part)
     if tagA == "Ok":
         a = [[hx(x) for x in s] for s in pA]
         b = [[hx(x) for x in s] for s in pB]
         if a != b:
-            stats.fail(f"C20:path-differs-from-false:{sc['planner']}:{fault['where']}:{fault['kind']}",
+            stats.fail(f"C20:path-differs-from-false:{sc['planner']}:{fault['where']}:{fkind}",
                        f"paths differ ({len(a)} vs {len(b)} states)", sc, part)
 
 
 C20_RULE = ("Hypothesis-generated C19 scenarios (all four planners, six variants) plus a fault plan: the validity callback or the goal's "
-            "is_satisfied fails (raises one of eight exception types / returns None / 'yes' / 'invalid' / 1 / 0.5 / [] / [False]) on every state "
-            "inside a fault region (ball in the space's metric) or at its k-th call, k < 40. Run A uses the failing callbacks, run B callbacks "
+            "is_satisfied fails (raises one of eight Exception types or KeyboardInterrupt / GeneratorExit / a BaseException subclass; returns None / 'yes' / 'invalid' / 1 / 0.5 / [] / [False]) on every state "
+            "inside a fault region (ball in the space's metric) or at its k-th call, k < 40; in a tenth of the plans the callback object itself is faulty (takes no argument, is not callable, is a C function that rejects states), so that every call fails in the call machinery. Run A uses the failing callbacks, run B callbacks "
             "that return False at exactly those points, same seed: outcome and path must be identical bit for bit, and (region faults) no state "
             "of A's path may be one on which the callback failed. PRM (wall-clock roadmap) is checked for the second clause only. 8 worker "
             "processes with derived seeds. Non-trivial = the fault was reached and run B differs from the fault-free run.")
@@ -1136,6 +1215,8 @@ def replay(path):
     try:
         if pid == "C19" and part == "planner-differential":
             c19_check_scenario(sc, stats)
+        elif pid == "C19" and part == "distance-differential":
+            c19_distances(sc, stats)
         elif pid == "C19" and part == "prm-soundness":
             c19_prm_soundness(sc, stats)
         elif pid == "C19":
